@@ -111,6 +111,11 @@ func c16Contexts() []string {
 		Print(`"<" + %v`), Print(`%v + ">"`), Print("1 + %v"), Print("%v + 1"), Print("%v + %v"), Print(`"" + %v + ""`),
 		Print("%v == %L"), Print("%L == %v"), Print("%v != %L"), Print("%v == %v"),
 		Print("idf(%v) == %v"), Var("w", "%v")+" "+Print("w == %v"), Print("[%v] == [%v]"),
+		// accumulation statements: the hole is evaluated once whatever it yields
+		Var("t", "0")+" t = t + %v; "+Print("t"), Var("t", "0")+" t = %v + t; "+Print("t"), Var("t", `"s"`)+" t = t + %v; "+Print("t"), Var("t", "2")+" t = t * %v; "+Print("t"),
+		Var("t", "0")+" "+Var("u", "1")+" u = t + %v; "+Print("u"), Var("ac", "[0]")+" ac[0] = ac[0] + %v; "+Print("ac"), Var("oc", "{n: 0}")+" oc.n = oc.n + %v; "+Print("oc"),
+		// interactive mode: a bare expression statement is echoed whatever produced its value
+		"//repl-mode\n%v;", "//repl-mode\n(%v);", "//repl-mode\n%v; %v;", "//repl-mode\n[%v];", "//repl-mode\n!%v;", "//repl-mode\n%v + 0;", "//repl-mode\nnil || %v;",
 	)
 	return ctx
 }
@@ -134,7 +139,7 @@ type c16Record struct {
 
 func c16Run1(c *Ctx, src, stdin string, cli bool) (*c16Record, bool) {
 	var o *Obs
-	if cli {
+	if cli && !strings.Contains(src, "//repl-mode\n") {
 		o = RunCLI(CLIOpts{Bin: c.Bin, Src: src, Stdin: stdin, Dir: c.Scratch})
 		c.Count("cli_runs", 1)
 		if o.TimedOut {
@@ -145,7 +150,7 @@ func c16Run1(c *Ctx, src, stdin string, cli bool) (*c16Record, bool) {
 			o.Panic = firstPanicLine(o.Stderr) + " ||"
 		}
 	} else {
-		o = RunLib(src, RunOpts{MaxSteps: 100000, Stdin: stdin})
+		o = RunLib(src, RunOpts{MaxSteps: 100000, Stdin: stdin, Repl: strings.Contains(src, "//repl-mode\n")})
 	}
 	if CheckAbnormal(c, o) {
 		return nil, false
@@ -153,6 +158,12 @@ func c16Run1(c *Ctx, src, stdin string, cli bool) (*c16Record, bool) {
 	rec := &c16Record{stdout: o.Stdout, exit: o.Exit}
 	if d := ParseDiags(o.Stderr); len(d) > 0 {
 		rec.diag = NormDiag(d[0], true)
+	}
+	if strings.Contains(src, "//repl-mode\n") {
+		// the statements that set a producer up may themselves be echoed: compare from the "start" mark on
+		if i := strings.Index(rec.stdout, "start\n"); i >= 0 {
+			rec.stdout = rec.stdout[i:]
+		}
 	}
 	return rec, true
 }
@@ -206,7 +217,7 @@ func c16Run(c *Ctx) {
 			stdin += p.stdin
 		}
 		stdin += "spare-one\nspare-two\n"
-		return pre + p.pre + Print(`"start"`) + "\n" + body + "\n" + Print(`"end"`) + "\n", stdin
+		return pre + p.pre + Print(`"start"`) + "\n" + body + "\n" + Print(`"end"`) + "\n" + Print(BI("input")) + "\n", stdin
 	}
 	type val struct {
 		kind, lit string
